@@ -140,6 +140,8 @@ class _TxnAppMixin:
         seq = w.log('conf', self.label, peer, inv, kind, repr(detail),
                     len(data) if data is not None else -1, phash(data) if data is not None else '')
         self.confs.append((seq, w.now, peer, inv, kind, detail, data))
+        for fn in w.outcome_hooks:
+            fn(seq)
 
     def make_request(self, server_addr, tok, rq_len, invoke=None):
         req = ConfirmedPrivateTransferRequest(vendorID=VENDOR, serviceNumber=tok)
@@ -190,6 +192,8 @@ class TxnIOApp(_TxnAppMixin, ApplicationIOController, WhoIsIAmServices):
         seq = w.log('iocb', self.label, iocb._tok, kind, repr(detail),
                     len(data) if data is not None else -1, phash(data) if data is not None else '')
         self.iocb_done.append((seq, w.now, iocb._tok, kind, detail, data, iocb._ncb))
+        for fn in w.outcome_hooks:
+            fn(seq)
 
 
 class VlanStack:
